@@ -87,7 +87,7 @@ def clauses (prop : String) (cfg : NetCfg) (seen : List Nat := []) : St → List
                                      previous := us.lastStatus, cycle := s.tick }).map fun k =>
               showStatus cfg { unit := i, kind := k })
           [("status_truthful_and_fresh", expected == o.statuses)]
-        else if prop == "C01" || prop == "C02" then
+        else if prop == "C01" || prop == "C02" || prop == "C15" then
           -- every cycle re-asserts the LATEST accepted motion command to every hydraulic unit (lock if there was none)
           let setupLen := if s.isSetup then 0 else ((units cfg).flatMap setupFrames).length
           let isHcuMotion (f : Frame) : Bool :=
@@ -123,7 +123,7 @@ def clauses (prop : String) (cfg : NetCfg) (seen : List Nat := []) : St → List
           [("request_responder", match respond cfg fn with | some fr => o.frames == fr | none => o.frames.isEmpty)]
         else []
       | .motion m =>
-        if prop == "C01" || prop == "C02" then
+        if prop == "C01" || prop == "C02" || prop == "C15" then
           -- the accepted command reaches every hydraulic unit, heard or not
           [("command_reaches_every_hcu",
             o.frames == ((units cfg).filter (·.kind == .hcu)).flatMap fun u => Hcu.encodeMotion u.da u.sa m)]
